@@ -422,7 +422,7 @@ fn parse_matched_braces_or_ending_semi(input: ParseStream) -> syn::Result<TokenS
         while let Some((tt, next)) = rest.token_tree() {
             match &tt {
                 TokenTree::Group(group) => {
-                    let is_brace = group.delimiter() == Delimiter::Brace;
+                    let is_brace = ends_with_brace_group(group);
                     tokens.extend(std::iter::once(tt));
                     if is_brace {
                         return Ok((tokens, next));
@@ -453,6 +453,19 @@ fn parse_matched_braces_or_ending_semi(input: ParseStream) -> syn::Result<TokenS
     }
 
     Ok(tokens)
+}
+
+/// A `{ .. }` group, or an invisible group that ends in one:
+/// that is how a `$body:block` fragment arrives when the item was generated by `macro_rules!`.
+fn ends_with_brace_group(group: &proc_macro2::Group) -> bool {
+    match group.delimiter() {
+        proc_macro2::Delimiter::Brace => true,
+        proc_macro2::Delimiter::None => match group.stream().into_iter().last() {
+            Some(proc_macro2::TokenTree::Group(last)) => ends_with_brace_group(&last),
+            _ => false,
+        },
+        _ => false,
+    }
 }
 
 fn disallow_token<T: Spanned>(token: Option<T>) -> syn::Result<()> {
